@@ -868,7 +868,7 @@ func evalActionDelete(node *ActionExpression, env *Environment) Object {
 		}
 
 		if obj == UNDEFINED {
-			env.Set(id.Value, val)
+			// deleting from an attribute that does not exist does nothing
 			return obj
 		}
 
